@@ -194,15 +194,23 @@ class C08(Prop):
     def _inner_binding_renamed(rng: random.Random) -> dict:
         """inner: f(k, u) -> r with k BOUND on the inner graph; the wrapper renames k -> k2 (sometimes not); the outer graph has an unrelated
         node reading a parameter called k (or k2): the inner binding must be visible under the wrapper's CURRENT name only."""
-        inner = {"name": "inner", "nodes": [{"name": "f", "kind": "fn", "params": [["k", None], ["u", None]], "dataOuts": ["r"], "body": {"b": "tag", "t": "f"}}],
-                 "bound": [["k", rng.randint(1, 9)]]}
-        ren = [["k", "k2"]] if rng.random() < 0.7 else []
+        how = rng.choice(["bound", "bound", "default"])
+        inner = {"name": "inner", "nodes": [{"name": "f", "kind": "fn", "params": [["k", {"d": 7} if how == "default" else None], ["u", None]], "dataOuts": ["r"],
+                                             "body": {"b": "tag", "t": "f"}}],
+                 "bound": [["k", rng.randint(1, 9)]] if how == "bound" else []}
+        # the wrapper renames k away, not at all, or onto a name the inner graph ALSO uses (a swap k <-> u, or a shift u -> w, k -> u in one call):
+        # the binding / default must follow the parameter, not the name
+        ren = rng.choice([[["k", "k2"]], [["k", "k2"]], [], [["k", "u"], ["u", "k"]], [["u", "w"], ["k", "u"]]])
         wrapper = {"name": "w", "kind": "graph", "inner": 0, "inRen": ren, "outRen": []}
         other_param = rng.choice(["k", "k", "k2"])
+        exposed = {"k": dict(ren).get("k", "k"), "u": dict(ren).get("u", "u")}
+        if how == "default" and other_param == exposed["k"]:
+            other_param = "k2" if exposed["k"] != "k2" else "k"     # (a default inside and none outside for ONE name is rejected by design)
         nodes = [wrapper, {"name": "other", "kind": "fn", "params": [[other_param, None], ["r", None]] if rng.random() < 0.5 else [[other_param, None]],
                            "dataOuts": ["o"], "body": {"b": "tag", "t": "other"}}]
         rng.shuffle(nodes)
-        values = [["u", rng.randint(0, 3)], [other_param, rng.randint(10, 19)]]
+        used = {exposed["k"], exposed["u"], other_param}
+        values = [[nm, rng.randint(10, 19)] for nm in sorted(used)]
         return {"program": [inner, {"name": "outer", "nodes": nodes, "bound": []}], "values": values}
 
     @staticmethod
